@@ -355,6 +355,8 @@ pub struct Inner {
     pub port_reuse: bool,
     pub icmp: bool,
     pub harness_error: Option<String>,
+    /// sandbox root, replaced by "$SB" in traces so that they do not depend on the pid
+    pub sb_root: String,
 }
 
 pub struct World {
@@ -391,7 +393,11 @@ impl Inner {
         }
         if let Some(tr) = &mut self.trace {
             if tr.len() < 20_000 {
-                tr.push(fmt_ev(&st, &ev));
+                let mut line = fmt_ev(&st, &ev);
+                if !self.sb_root.is_empty() && line.contains(&self.sb_root) {
+                    line = line.replace(&self.sb_root, "$SB");
+                }
+                tr.push(line);
             }
         }
         if self.violation.is_none() {
@@ -837,6 +843,7 @@ impl World {
                 port_reuse: false,
                 icmp: false,
                 harness_error: None,
+                sb_root: String::new(),
             }),
             driver_cv: Condvar::new(),
         })
